@@ -394,6 +394,10 @@ def dropPi : Bool → List XTok → List XTok
   | true, _ :: r => dropPi true r
   | false, t :: r => t :: dropPi false r
 
+/-- the markup skeleton of a stream: everything but the `text` tokens and the data items of PIs -/
+def skeleton (ts : List XTok) : List XTok :=
+  (dropPi false ts).filter (fun t => match t with | .text _ => false | _ => true)
+
 /-- PI data compared up to white space, quote characters and references -/
 def piNorm (d : List Char) : List DCh :=
   (decodeText d).filter (fun x => !(isWsD x || x == .c 34 || x == .c 39))
